@@ -583,9 +583,12 @@ func (bh *Header) RemoveReadGroup(rg *ReadGroup) error {
 	}
 	bh.rgs = append(bh.rgs[:rg.id], bh.rgs[rg.id+1:]...)
 	for i := range bh.rgs[rg.id:] {
-		bh.rgs[i+int(rg.id)].id--
+		g := bh.rgs[i+int(rg.id)]
+		g.id--
+		bh.seenGroups[g.name] = g.id
 	}
 	rg.id = -1
+	rg.owner = nil
 	delete(bh.seenGroups, rg.name)
 	return nil
 }
@@ -613,9 +616,12 @@ func (bh *Header) RemoveProgram(p *Program) error {
 	}
 	bh.progs = append(bh.progs[:p.id], bh.progs[p.id+1:]...)
 	for i := range bh.progs[p.id:] {
-		bh.progs[i+int(p.id)].id--
+		g := bh.progs[i+int(p.id)]
+		g.id--
+		bh.seenProgs[g.uid] = g.id
 	}
 	p.id = -1
+	p.owner = nil
 	delete(bh.seenProgs, p.uid)
 	return nil
 }
